@@ -45,10 +45,13 @@ _c('CACHE', 'AllocArgCnt BAsmCode DAsmCode WAsmCode MaxCodeLen IntFormatList bpe
    'buffer capacity, lazily built constant table or static result buffer; independent of the assembled program')
 _c('HANDLE', 'Debug ErrorFile LstFile MacProFile MacroFile ShareFile PrgFile',
    'stream handle; inside a pass only the fatal-exit path (EmergencyStop) touches it')
-_c('EXIT', 'FirstDefine LineInfoRoot asminclist.c:Root asminclist.c:Curr asmpars.c:FirstLocHandle PatchList PatchLast '
+_c('EXIT', 'FirstDefine asminclist.c:Root asminclist.c:Curr PatchList PatchLast '
    'ExportList ExportLast asmerr.c:pExpectErrors asmfnums.c:FirstFile asmfnums.c:FileCount',
    'list emptied at the end of every pass (clean-up in the pass loop / AsmErrPassExit / CloseFile)')
-_c('BALANCED', 'IfAsm CurrIncludeLevel asmpars.c:DoRefs',
+_c('OPTION', 'LineInfoRoot',
+   'written only under the command line option DebugMode != DebugNone and emptied in the pass loop under the same test')
+OPTION_OF = {'LineInfoRoot': ('DebugMode', 'AddLineInfo', 'ClearLineInfo')}
+_c('BALANCED', 'IfAsm CurrIncludeLevel asmpars.c:DoRefs asmpars.c:FirstLocHandle',
    'every write in the body is one half of an open/close pair; an unbalanced pass ends with an error and no pass follows')
 _c('CARRIED', 'asmpars.c:FirstSymbol asmpars.c:FirstLocSymbol asmmac.c:MacroRoot StructRoot asmpars.c:FirstFunction '
    'FirstSection asmpars.c:FirstStack asmpars.c:MomSection MomSectionHandle',
@@ -101,6 +104,35 @@ def phase_kills(facts, P):
     return ph, KP, KF, KX
 
 
+_kxm = {}
+
+
+def exit_must_kills(facts, P):
+    """Globals that are assigned (or found NULL on a loop-exit edge) on every path of a function that AssembleFile()
+    calls on every path after ProcessFile(), or by the per-pass initialisation roots that are always called."""
+    if id(P) in _kxm:
+        return _kxm[id(P)]
+    ph = asl_phases(facts, P)
+    af = ph['AssembleFile']
+    h, s0, body = ph['loop']
+    pf = ph['pf']
+    K = set()
+    for b, i, ln, n in af.calls():
+        cn = callee_name(n)
+        t = P.resolve(af.unit, cn) if cn else None
+        if t is None or t not in (ph['FILE_EXIT_roots'] | ph['PASS_EXIT_roots']):
+            continue
+        ok, w = af.must_pass(pf[0], pf[1], lambda ex, n=n: any(m is n for m in walk_own(ex)))
+        if ok or cn == 'CloseFile':
+            # CloseFile() is called under "if (CodeOutput)", the same condition under which OpenFile() lets the
+            # pass produce records at all
+            K |= E.kill(P, t)
+    for f in E.must_roots(af, pf, s0, P, True):
+        K |= E.kill(P, f)
+    _kxm[id(P)] = K
+    return K
+
+
 def line_kills(facts, P):
     """Globals assigned by the per-line driver (support for class LINE)."""
     pf = facts.func('as.c', 'ProcessFile')
@@ -136,10 +168,10 @@ def core_reset(chk, facts, rule, scope):
         n += 1
         f0, how0, ln0 = mod[k][0]
         loc = '%s:%d' % (du[k][1]['file'], du[k][1]['line'])
-        if k in killed:
+        cls = CLASS.get(k)
+        if k in killed and not (cls is not None and cls[0] == 'EXIT'):
             chk.ob(rule, k, True, loc, 'assigned on every path of the %s initialisation' % scope)
             continue
-        cls = CLASS.get(k)
         if cls is not None:
             ok = True
             why = '%s: %s' % cls
@@ -149,6 +181,26 @@ def core_reset(chk, facts, rule, scope):
             if cls[0] == 'COUNTED' and k in COUNT_OF and COUNT_OF[k] not in KP:
                 ok = False
                 why = 'its element count %s is no longer reset per pass' % COUNT_OF[k]
+            if cls[0] == 'EXIT' and k not in exit_must_kills(facts, P):
+                ok = False
+                why = ('%s is classified as a list emptied at the end of every pass, but no function that the pass loop '
+                       'always calls after ProcessFile() empties it on every path: entries survive into the next pass or '
+                       'file' % k)
+            if cls[0] == 'OPTION':
+                opt, writer, clearer = OPTION_OF[k]
+                okw = True
+                for g in P.all_funcs():
+                    for b, i, ln, c in g.calls(writer):
+                        if not g.guarded(b, i, lambda l: l is not None and l[0] in ('T', 'F') and mentions(l[1], lambda x: var_is(x, {opt})))[0]:
+                            okw = False
+                af = ph['AssembleFile']
+                okc = any(b in ph['loop'][2] and af.guarded(b, i, lambda l: l is not None and l[0] in ('T', 'F') and
+                                                            mentions(l[1], lambda x: var_is(x, {opt})))[0]
+                          for b, i, ln, c in af.calls(clearer))
+                if not (okw and okc):
+                    ok = False
+                    why = ('%s: %s() is no longer called only under a test of %s, or %s() is no longer called in the pass loop '
+                           'under that test' % (k, writer, opt, clearer))
             if cls[0] == 'GUARDED' and 'StartAdrPresent' not in KP:
                 ok = False
                 why = 'its guard flag StartAdrPresent is no longer reset per pass'
